@@ -748,6 +748,7 @@ func randCase(rnd *rand.Rand, maxU int) *lCase {
 		return h
 	}
 	hasHTTP := func(x *lNode) bool { return strings.Contains(x.String(), "http") }
+	hasUnify := func(x *lNode) bool { return strings.Contains(x.String(), "unify") }
 	// gen draws a tree over a universe of `size` names
 	var gen func(depth, size int) *lNode
 	gen = func(depth, size int) *lNode {
@@ -768,11 +769,11 @@ func randCase(rnd *rand.Rand, maxU int) *lCase {
 			return &lNode{T: "select", P: lRandSubset(rnd, size, []float64{0.5, 0.9, 1.0}[rnd.Intn(3)]), X: gen(depth-1, size)}
 		default:
 			x, y := gen(depth-1, size), gen(depth-1, size)
-			// Not generated: a unifier directly below a unifier, and for referrers two
-			// members with HTTP hops - ociclient.Referrers sends its request when it is
-			// called and the unifier calls both members concurrently, so the order of the
+			// Not generated: a unifier below a unifier, and for referrers two members with
+			// HTTP hops - a unifier and ociclient.Referrers do their requests when they are
+			// called, and the unifier calls both members concurrently, so the order of the
 			// two members' requests is not determined.
-			if x.T == "unify" || y.T == "unify" || c.Kind == "refs" && hasHTTP(x) && hasHTTP(y) {
+			if hasUnify(x) || hasUnify(y) || c.Kind == "refs" && hasHTTP(x) && hasHTTP(y) {
 				return x
 			}
 			return &lNode{T: "unify", X: x, Y: y}
